@@ -757,6 +757,11 @@ class RefResolver(object):
         Resolve the given reference.
         """
         url = self._urljoin_cache(self.resolution_scope, ref)
+        if url == ref and ref.startswith(u"#"):
+            # urljoin drops a base whose scheme it does not know (a handler's
+            # own scheme, urn:); a fragment-only reference designates the
+            # current document whatever its scheme (RFC 3986, 5.2.2)
+            url = self.base_uri + ref
         return url, self._remote_cache(url)
 
     def resolve_from_url(self, url):
